@@ -173,6 +173,15 @@ def r02_3(ctx):
 
 
 def rules(ctx):
+    if ctx.tier == "thorough":
+        from . import controls
+        extra = [controls.callee_pattern_control("R02.1", UNICODE_WS_APIS, ["unicode_trim"])]
+    else:
+        extra = []
+    return _rules(ctx) + extra
+
+
+def _rules(ctx):
     from ..engine import only
     from . import c03
     return [r02_1, r02_2, r02_3,
